@@ -34,7 +34,7 @@
    are cross-checked against bash to keep the spec honest and reported as notes. *)
 EXTENDS Integers, Sequences, FiniteSets, TLC, Json
 
-CONSTANTS Modes,          \* subset of {"getopts", "count", "breadth", "params", "syntax", "slice"}
+CONSTANTS Modes,          \* subset of {"getopts", "count", "breadth", "params", "syntax", "slice", "arith"}
           GMaxHist,       \* getopts: steps per history
           GMaxArgs,       \* getopts: arguments per call
           GWordIds,       \* getopts: indices into GWordTable
@@ -295,6 +295,30 @@ SliceProg(subj, form, oi, li) ==
      IF form = "quoted" THEN "echo \"<" \o SliceWord(subj, oi, li) \o ">\"" ELSE "echo x" \o SliceWord(subj, oi, li) \o "y" >>
 
 -----------------------------------------------------------------------------
+(* ---------------- arith: every operator over edge operands ---------------- *)
+\* Binary and assignment operators of shell arithmetic crossed with edge operands (zero, negative
+\* and out-of-range shift counts, the 64-bit limits, an empty and an unset operand, a name whose
+\* value is an expression, an array element, an invalid octal literal).  Only "no panic" is claimed.
+ArithBinOps == <<"+", "-", "*", "/", "%", "**", "<<", ">>", "&", "|", "^", "&&", "||", "<", "==", ",", "?1:">>
+ArithAsgOps == <<"=", "+=", "-=", "*=", "/=", "%=", "<<=", ">>=", "&=", "|=", "^=">>
+ArithVals   == <<"0", "1", "-1", "64", "-64", "9223372036854775807", "-9223372036854775808", "", "$z", "e", "a[0]", "08">>
+ArithPrelude == "e='1+'; a=(3); unset z"
+\* forms: a binary operator in $(( )), and an assignment operator on a scalar, on an array element,
+\* in (( )), in let, and in the step of a for (( )) loop
+ArithForms  == <<"bin", "asg", "elem", "cmd", "let", "for">>
+ArithNOps(form) == IF form = "bin" THEN Len(ArithBinOps) ELSE Len(ArithAsgOps)
+ArithProg(form, oi, li, ri) ==
+  LET l == ArithVals[li]
+      r == ArithVals[ri]
+      op == IF form = "bin" THEN ArithBinOps[oi] ELSE ArithAsgOps[oi]
+  IN CASE form = "bin"  -> << ArithPrelude, "echo $(( " \o l \o " " \o op \o " " \o r \o " ))" >>
+       [] form = "asg"  -> << ArithPrelude, "x=" \o (IF l = "$z" THEN "" ELSE l), "echo $(( x " \o op \o " " \o r \o " )) $x" >>
+       [] form = "elem" -> << ArithPrelude, "b=(7 " \o (IF l \in {"", "$z"} THEN "''" ELSE l) \o ")", "echo $(( b[1] " \o op \o " " \o r \o " )) ${b[1]}" >>
+       [] form = "cmd"  -> << ArithPrelude, "x=" \o (IF l = "$z" THEN "" ELSE l), "(( x " \o op \o " " \o r \o " )); echo $? $x" >>
+       [] form = "let"  -> << ArithPrelude, "x=" \o (IF l = "$z" THEN "" ELSE l), "let \"x " \o op \o " " \o r \o "\"; echo $? $x" >>
+       [] form = "for"  -> << ArithPrelude, "x=" \o (IF l = "$z" THEN "" ELSE l), "for ((i = 0; i < 2; i++, x " \o op \o " " \o r \o ")); do :; done; echo $x" >>
+
+-----------------------------------------------------------------------------
 (* ---------------- the enumerating state machine ---------------- *)
 Init == /\ mode \in Modes /\ hist = <<>> /\ g = GInit
 
@@ -342,6 +366,14 @@ SliceStart ==
   /\ \E i \in 1..Len(SliceSubjects), f \in 1..Len(SliceForms) :
         hist' = <<[name |-> SliceSubjects[i], ctx |-> SliceForms[f]]>>
   /\ UNCHANGED <<mode, g>>
+ArithStart ==                  \* hist = <<[form], operator index, left index, right index>>
+  /\ mode = "arith" /\ hist = <<>>
+  /\ \E f \in 1..Len(ArithForms) : hist' = <<[name |-> ArithForms[f], ctx |-> ""]>>
+  /\ UNCHANGED <<mode, g>>
+ArithAdd ==
+  /\ mode = "arith" /\ Len(hist) \in {1, 2, 3}
+  /\ \E i \in 1..(IF Len(hist) = 1 THEN ArithNOps(hist[1].name) ELSE Len(ArithVals)) : hist' = Append(hist, i)
+  /\ UNCHANGED <<mode, g>>
 SliceAdd ==                    \* hist = <<[subject, form], offset index, length index>>
   /\ mode = "slice" /\ Len(hist) \in {1, 2}
   /\ \E i \in 1..(IF Len(hist) = 1 THEN Len(SliceVals) ELSE SliceNoLen) : hist' = Append(hist, i)
@@ -354,7 +386,7 @@ AddWord ==
   /\ \E w \in 1..NWords : hist' = Append(hist, w)
   /\ UNCHANGED <<mode, g>>
 
-Next == GetoptsStep \/ CountStart \/ BreadthStart \/ ParamsStart \/ AddWord \/ SyntaxStart \/ SyntaxAdd \/ SliceStart \/ SliceAdd
+Next == GetoptsStep \/ CountStart \/ BreadthStart \/ ParamsStart \/ AddWord \/ SyntaxStart \/ SyntaxAdd \/ SliceStart \/ SliceAdd \/ ArithStart \/ ArithAdd
 Spec == Init /\ [][Next]_vars
 
 -----------------------------------------------------------------------------
@@ -387,6 +419,10 @@ CountVec ==
 EmitVec ==
   \/ /\ hist = <<>>
      /\ PrintT(<<"STAT", ToJson([mode |-> mode, prelude |-> Prelude, ctx |-> CtxTemplate])>>)
+  \/ /\ mode = "arith"
+     /\ (Len(hist) < 4 \/
+         PrintT(<<"VEC", ToJson([fam |-> "arith", form |-> hist[1].name,
+                                 prog |-> ArithProg(hist[1].name, hist[2], hist[3], hist[4])])>>))
   \/ /\ mode = "slice"
      /\ (Len(hist) < 3 \/
          PrintT(<<"VEC", ToJson([fam |-> "slice", subj |-> hist[1].name, form |-> hist[1].ctx,
